@@ -1,5 +1,6 @@
 import GmQuic.Lemmas.CidRouter
 import GmQuic.Lemmas.CidRemote
+import GmQuic.Lemmas.CidSwitchRun
 /-!
 C14 — connection IDs are issued, used, retired and routed consistently.
 Only the property theorems; models in `GmQuic/Model/{Cid,Router}.lean`, lemmas in `GmQuic/Lemmas/Cid*.lean`.
@@ -229,9 +230,181 @@ theorem new_cid_table_growth (s : Remote) (seq : Nat) (h : s.coff + s.cdq.length
   have : ¬ (seq - s.coff < s.cdq.length) := by omega
   simp [this]
 
--- OPEN: retire_prior_to_switches_and_retires_once (∀ histories: for every sequence number q,
---   frames.count q + (number of cells holding q) = if q < cursor then 1 else 0) is not proved yet; it is
---   checked on every run by the exact correspondence of the RETIRE_CONNECTION_ID frame stream and by the
---   monitors `retire_frame_duplicated`, `retire_of_unissued_seq`, `retired_id_used`, `abandoned_id_used`.
+/-! ## retire-prior-to: switching, and exactly one RETIRE_CONNECTION_ID per abandoned id
+
+Ghost logs over a history `ops` (frames in any order, duplicated, any seq / retire_prior_to values, interleaved with
+apply / borrow / release (= drop of `BorrowedCid` ⇒ `CidCell::renew`) / retire of any number of cells):
+* emitted RETIRE_CONNECTION_ID frames: `(RRun.run … ops).s.frames` — every `send_frame` of `RemoteCids` and of every
+  `CidCell`, in order; `frames.count q` = number of frames carrying `q`;
+* assigned sequence numbers: `Assigned … ops q c` — at some point of the history cell `c`'s `allocated_cids` contained
+  `q` (`CidCell::assign` pushes the new id to the front, so every assignment shows in the state after its step).
+`s.roff` (= `s.coff`, `remote_tables_aligned`) is the current retire-prior-to: `retire_prior_to_is_max`.
+`s.cursor` is the next sequence number never handed out; `s.cidAt s.cursor` = "a replacement id is available"
+(gm-quic hands ids out strictly in sequence order). -/
+
+def Assigned (fixed : Bool) (limit : Nat) (ops : List ROp) (q c : Nat) : Prop :=
+  ∃ n, q ∈ ((RRun.run fixed limit (ops.take n)).s.cell c).seqs
+
+/-- the accounting, for every history and every sequence number `q`: the number of RETIRE_CONNECTION_ID frames that
+carried `q` plus the number of cells holding `q` is 1 below `cursor` (assigned to a path, or jumped over by
+retire_prior_to) and 0 from `cursor` on — no id is retired twice, none is retired while a path holds it, none is held
+by two paths, and an id no path holds any more has been retired -/
+theorem retire_accounting (fixed : Bool) (limit : Nat) (ops : List ROp) (q : Nat) :
+    let s := (RRun.run fixed limit ops).s
+    s.frames.count q + s.held.count q = if q < s.cursor then 1 else 0 :=
+  (RRun.runGood_run fixed limit ops).good.acct q
+
+/-- never two RETIRE_CONNECTION_ID frames for one sequence number -/
+theorem retire_frame_at_most_once (fixed : Bool) (limit : Nat) (ops : List ROp) (q : Nat) :
+    (RRun.run fixed limit ops).s.frames.count q ≤ 1 := by
+  have := retire_accounting fixed limit ops q
+  simp only at this
+  split at this <;> omega
+
+/-- the current retire-prior-to is the largest one of the accepted frames: an accepted NEW_CONNECTION_ID frame
+`(seq, rpt)` leaves the offset of both tables at `max offset rpt`; nothing assigned lies beyond `cursor ≥ offset` -/
+theorem retire_prior_to_is_max (fixed : Bool) (limit : Nat) (ops : List ROp) (seq rpt : Nat) (cid : Cid) (s' : Remote)
+    (h : (RRun.run fixed limit ops).s.recvNewCid fixed seq rpt cid = .accepted s') :
+    s'.roff = max (RRun.run fixed limit ops).s.roff rpt ∧ s'.coff = s'.roff ∧ s'.roff ≤ s'.cursor := by
+  have hg := (RRun.runGood_run fixed limit ops).good
+  have := (Remote.recvNewCid_good (fixed := fixed) (seq := seq) (rpt := rpt) (cid := cid) hg).1 s' h
+  have h1 := this.1.rinv.i1
+  exact ⟨this.2.2.2, this.1.rinv.i2, by omega⟩
+
+example : ∃ s', (RRun.run true 2 [.apply, .initial (.ext 0) 0]).s.recvNewCid true 1 1 (.ext 1) = .accepted s' ∧ s'.roff = 1 :=
+  ⟨_, rfl, by decide⟩
+
+/-- **one retirement per abandoned id** — for every history and every sequence number `q` that was ever assigned to a
+cell `c`: at the end either `c` still holds `q` and no RETIRE_CONNECTION_ID `q` exists, or no cell holds `q` and
+EXACTLY ONE RETIRE_CONNECTION_ID `q` was sent; if `c` was retired it is the latter; and once the borrow is released
+(`is_using = false`) it is the latter for every assigned number except the single id the cell keeps. -/
+theorem retire_prior_to_switches_and_retires_once (fixed : Bool) (limit : Nat) (ops : List ROp) (q c : Nat)
+    (ha : Assigned fixed limit ops q c) :
+    let s := (RRun.run fixed limit ops).s
+    ((q ∈ (s.cell c).seqs ∧ s.frames.count q = 0 ∧ s.held.count q = 1) ∨
+      (q ∉ (s.cell c).seqs ∧ s.frames.count q = 1 ∧ s.held.count q = 0)) ∧
+    ((s.cell c).retired = true → s.frames.count q = 1) ∧
+    ((s.cell c).inUse = false → s.frames.count q = 1 ∨ ∃ x, (s.cell c).alloc = [(q, x)]) := by
+  obtain ⟨n, hn⟩ := ha
+  have hl := RRun.leaves_take fixed limit ops n
+  have hg := (RRun.runGood_run fixed limit ops).good
+  generalize (RRun.run fixed limit ops).s = s at hl hg
+  generalize (RRun.run fixed limit (ops.take n)).s = s0 at hl hn
+  simp only
+  have hacct := hg.acct q
+  unfold Remote.acct at hacct
+  have hle : s.frames.count q + s.held.count q ≤ 1 := by split at hacct <;> omega
+  -- a number a cell holds is counted in `held`
+  have hheld : q ∈ (s.cell c).seqs → 1 ≤ s.held.count q := by
+    intro hm
+    rcases Nat.lt_or_ge c s.cells.length with hc | hc
+    · rw [Remote.cell_lt s c hc] at hm
+      apply List.count_pos_iff.2
+      unfold Remote.held
+      exact List.mem_flatMap.2 ⟨_, List.getElem_mem hc, hm⟩
+    · rw [Remote.cell_ge s c hc] at hm; simp [Cell.seqs, Cell.fresh] at hm
+  have hok := Remote.cell_ok_of_all s hg.rinv.ok c
+  have key : (q ∈ (s.cell c).seqs ∧ s.frames.count q = 0 ∧ s.held.count q = 1) ∨
+      (q ∉ (s.cell c).seqs ∧ s.frames.count q = 1 ∧ s.held.count q = 0) := by
+    rcases hl.mem c q hn with h1 | h1
+    · have := hheld h1; exact Or.inl ⟨h1, by omega, by omega⟩
+    · have h2 : 1 ≤ s.frames.count q := List.count_pos_iff.2 h1
+      refine Or.inr ⟨fun hm => ?_, by omega, by omega⟩
+      have := hheld hm; omega
+  refine ⟨key, fun hr => ?_, fun hu => ?_⟩
+  · rcases key with ⟨h1, _⟩ | ⟨_, h2, _⟩
+    · have := hok.2 hr; simp [Cell.seqs, this] at h1
+    · exact h2
+  · rcases key with ⟨h1, _⟩ | ⟨_, h2, _⟩
+    · right
+      have hlen := hok.1 hu
+      unfold Cell.seqs at h1
+      match hal : (s.cell c).alloc, hlen, h1 with
+      | [(a, x)], _, h1 => simp at h1; subst h1; exact ⟨x, rfl⟩
+      | [], _, h1 => simp at h1
+      | _ :: _ :: _, hlen, _ => simp at hlen
+    · exact Or.inl h2
+
+/-- non-vacuity + the shape of the seeded c14-2 history: two frames bump retire-prior-to during one borrow; after the
+release both abandoned ids 0 and 1 are retired once and the path is on id 2 -/
+example : Assigned true 2 [.apply, .initial (.ext 0) 0, .borrow 0, .newcid 1 1 (.ext 1), .newcid 2 2 (.ext 2), .release 0] 1 0 :=
+  ⟨4, by decide⟩
+example : (RRun.run true 2 [.apply, .initial (.ext 0) 0, .borrow 0, .newcid 1 1 (.ext 1), .newcid 2 2 (.ext 2), .release 0]).s.frames = [0, 1] := by
+  decide
+
+/-- **switching** — in every reachable state of a connection that is not being closed: if a replacement id is
+available (the next unused sequence number has been received) then no path waits, and the id every live path is
+using / will keep after its release (the front of `allocated_cids`, what `borrow_cid` returns) is ≥ the current
+retire-prior-to -/
+theorem abandoned_id_replaced_when_available (fixed : Bool) (limit : Nat) (ops : List ROp) (c : Nat) (x : Cid)
+    (hcl : (RRun.run fixed limit ops).closed = false)
+    (hav : (RRun.run fixed limit ops).s.cidAt (RRun.run fixed limit ops).s.cursor = some x)
+    (hc : c < (RRun.run fixed limit ops).s.cells.length)
+    (hlive : ((RRun.run fixed limit ops).s.cell c).retired = false) :
+    ∃ a y rest, ((RRun.run fixed limit ops).s.cell c).alloc = (a, y) :: rest ∧ (RRun.run fixed limit ops).s.roff ≤ a := by
+  have hr := RRun.runGood_run fixed limit ops
+  generalize RRun.run fixed limit ops = r at *
+  have hp : r.s.pending = [] := by
+    rcases hr.settled with h | h | h
+    · rw [hcl] at h; cases h
+    · exact h
+    · rw [hav] at h; cases h
+  rcases hr.good.cover c hc with h | h | h
+  · rw [hp] at h; cases h
+  · obtain ⟨j, hj, hjc⟩ := List.getElem_of_mem h
+    rcases hr.good.heads j c (by rw [List.getElem?_eq_getElem hj, hjc]) with h1 | ⟨a, y, rest, h1, h2⟩
+    · rw [hlive] at h1; cases h1
+    · exact ⟨a, y, rest, h1, by omega⟩
+  · rw [hlive] at h; cases h
+
+example : (RRun.run true 3 [.apply, .initial (.ext 0) 0, .newcid 1 0 (.ext 1)]).s.cidAt
+    (RRun.run true 3 [.apply, .initial (.ext 0) 0, .newcid 1 0 (.ext 1)]).s.cursor = some (.ext 1) := by decide
+
+/-- … and an abandoned id (below the current retire-prior-to) is held only by a path that has it borrowed right now,
+or by a path queued for reassignment while no replacement is available -/
+theorem abandoned_id_held_only_while_waiting (fixed : Bool) (limit : Nat) (ops : List ROp) (q c : Nat)
+    (hcl : (RRun.run fixed limit ops).closed = false)
+    (hq : q ∈ ((RRun.run fixed limit ops).s.cell c).seqs) (hlt : q < (RRun.run fixed limit ops).s.roff) :
+    ((RRun.run fixed limit ops).s.cell c).inUse = true ∨
+    (c ∈ (RRun.run fixed limit ops).s.pending ∧
+      (RRun.run fixed limit ops).s.cidAt (RRun.run fixed limit ops).s.cursor = none) := by
+  have hr := RRun.runGood_run fixed limit ops
+  generalize RRun.run fixed limit ops = r at *
+  cases hu : (r.s.cell c).inUse with
+  | true => exact Or.inl rfl
+  | false =>
+    right
+    have hc : c < r.s.cells.length := by
+      rcases Nat.lt_or_ge c r.s.cells.length with h | h
+      · exact h
+      · rw [Remote.cell_ge _ c h] at hq; simp [Cell.seqs, Cell.fresh] at hq
+    have hok := Remote.cell_ok_of_all r.s hr.good.rinv.ok c
+    have hlive : (r.s.cell c).retired = false := by
+      cases hret : (r.s.cell c).retired with
+      | false => rfl
+      | true => have := hok.2 hret; simp [Cell.seqs, this] at hq
+    have hlen := hok.1 hu
+    have hpend : c ∈ r.s.pending := by
+      rcases hr.good.cover c hc with h | h | h
+      · exact h
+      · obtain ⟨j, hj, hjc⟩ := List.getElem_of_mem h
+        rcases hr.good.heads j c (by rw [List.getElem?_eq_getElem hj, hjc]) with h1 | ⟨a, y, rest, h1, h2⟩
+        · rw [hlive] at h1; cases h1
+        · rw [h1] at hlen
+          cases rest with
+          | nil => simp [Cell.seqs, h1] at hq; omega
+          | cons _ _ => simp at hlen
+      · rw [hlive] at h; cases h
+    refine ⟨hpend, ?_⟩
+    rcases hr.settled with h | h | h
+    · rw [hcl] at h; cases h
+    · rw [h] at hpend; cases hpend
+    · exact h
+
+/-- non-vacuity: two paths on ids 0 and 1, then a frame (seq 2, retire_prior_to 2): path 0 switches to id 2 (RETIRE 0), path 1
+keeps the abandoned id 1 — it is queued and no further id has been received -/
+example :
+    let r := RRun.run true 2 [.apply, .initial (.ext 0) 0, .newcid 1 0 (.ext 1), .apply, .newcid 2 2 (.ext 2)]
+    r.closed = false ∧ 1 ∈ (r.s.cell 1).seqs ∧ 1 < r.s.roff ∧ r.s.frames = [0] := by decide
 
 end GmQuic.Cid
